@@ -141,7 +141,7 @@ static volatile int dying;
     tl_in_rt++;
     oprintf("{\"t\":\"%s\",\"class\":", kind); ojson_str(cls); oprintf(",\"msg\":"); ojson_str(msg); oprintf(",");
     emit_run_fields();
-    SimThread *t = tl_self;
+    SimThread *t = tl_self ? tl_self : G.cur;      // reported by the real-time watchdog: the thread that is running
     static char sb[4096];
     if (t) { format_stack(sb, sizeof sb, t->stack_node, 0); oprintf(",\"by\":%d,\"stack\":\"%s\"", t->id, sb); }
     emit_threads();
